@@ -93,20 +93,26 @@ package subscribe
 //@ pred UpdatesOnly(r *pb.SubscribeRequest) := isa(r.Request.(*pb.SubscribeRequest_Subscribe)) && payload(r.Request) != nil
 //@   && r.Request.(*pb.SubscribeRequest_Subscribe).Subscribe != nil && r.Request.(*pb.SubscribeRequest_Subscribe).Subscribe.UpdatesOnly
 
-// Statistics helpers (under their own mutex; irrelevant to the properties).
+// Statistics helpers (maps under their own mutex; irrelevant to the properties).
+//@ monitor stats.mu protects types, targets, clients invariant StatsInv
+//@ pred StatsInv(s *stats) := s.types != nil && s.targets != nil && s.clients != nil
 //@ func (*stats).removeClientStats
 //@   props C12
+//@   locks s
 //@   requires s != nil
 //@ func (*stats).clientStats
 //@   props C12
+//@   locks s
 //@   requires s != nil
 //@   ensures res0 != nil
 //@ func (*stats).targetStats
 //@   props C12
+//@   locks s
 //@   requires s != nil
 //@   ensures res0 != nil
 //@ func (*stats).typeStats
 //@   props C12
+//@   locks s
 //@   requires s != nil
 //@   ensures res0 != nil
 //@ func field options.clientStatsTest
